@@ -75,6 +75,15 @@ pub fn run(cx: &mut Ctx) {
         check_prog_oracle_only(cx, &j, &format!("join side rows={n} keys=11"), &[Mode::Seq, Mode::Par(2)]);
     }
 
+    // group_by_key over a streamed file source (one part per shard, zero shards for an empty file)
+    for n in [0usize, 1, 5, 12] {
+        let src: Vec<V> = (0..n as i64).map(|i| V::pair(V::I(i % 3), V::I(i))).collect();
+        for per in [0usize, 1, 2, 5, 100] {
+            let p = Prog { shape: Shape::KV, src: src.clone(), steps: vec![Step::Gbk] };
+            check_prog_file(cx, &p, per, &[Mode::Seq, Mode::Par(1), Mode::Par(4)], &o);
+        }
+    }
+
     // random: prefix (reorder-inert, so the known planner finding cannot interfere) ; gbk ; optional suffix
     let rounds = cx.budget(300, 6000);
     let mut done = 0;
